@@ -238,8 +238,14 @@ def install_frame_counter(sink=None):
                 tls.skip = True
             if v[0] in (consts.MSG_REPLY, consts.MSG_EXCEPTION):
                 # a client's answer to something the SERVER asked (at top level: to its asynchronous release notices for the
-                # client's objects): housekeeping of the callbacks, not a frame of the client's own making
-                tls.skip = True
+                # client's objects): housekeeping of the callbacks, not a frame of the client's own making.  A response
+                # nobody asked for (a hostile client's) is a frame like any other
+                try:
+                    solicited = v[1] in self._request_callbacks
+                except Exception:  # noqa
+                    solicited = False
+                if solicited:
+                    tls.skip = True
         except Exception:  # noqa
             pass
         return orig_dispatch(self, data)
